@@ -326,3 +326,15 @@ package verifspec
 //@   requires n > 0 && n < 1000
 //@   loop 1 invariant 0 <= i && i <= n && s == 2 * i
 //@   ensures result == 2 * n
+
+//@ func st.TwoPre
+//@ property S01
+//@   requires 0 <= a && a <= 10
+//@   requires 0 <= b && b <= 10
+//@   ensures result == a + b
+//@ func st.Bad_SecondPre
+//@ property S01
+//@   ensures true
+//@ func st.Ok_SecondPre
+//@ property S01
+//@   ensures result >= 0
